@@ -45,7 +45,7 @@ func init() {
 		PropCheck: "prop_bad_ids",
 		Gen:       c06Gen,
 		Run:       c06Run,
-		Rule:      "keygen cases (n,t,seed): private shares, group key, reconstruction from several signer subsets in several orders through the stateless and the stateful API; lambda cases: one Lagrange coefficient isolated by reconstructing from identity shares except one, signer sets straddling the 8-per-limb batches ({1..9}, {8,9}, {247..254}, descending, large t); error cases: sizes/thresholds out of range, count mismatch, not enough shares, duplicates, out-of-range indices, wrong-length shares, several defects in one call (which check wins), empty lists, defects past the first t+1 entries, sizes / thresholds / indices valid only modulo 256 or 2^16, n = 254 with t = 253; keygen cases also vary message (empty, 1 byte, 300 bytes), tag (empty, other) and seed length (32, 300), include n = 254, check that arguments stay unmodified, VerifyShare(i, share_j) iff i = j, duplicate adds, and the participant object (SignShare = the signer's signature, own share first, reconstruction equal to the stateless one, constructor errors incl. index +-256, foreign and non-BLS keys); lambda-coincidence: all shares equal, two equal, a pair P / -P, a set interpolating to the point at infinity, on signer sets {1,2,3}, {4..12}, {254,8,9}; bad-share: wrong signer, wrong message, random G1 point, non-G1 curve point, identity, bad header, x >= p at positions 0, 2 (read) and 3 (not read) of a list of 5 through the stateless API, VerifyAndAdd (refused, not retained, object still reaches the group signature) and TrustedAdd + ThresholdSignature three times (documented error class every time); constructor-errors: BLSThresholdKeyGen / NewBLSThresholdSignatureInspector / EnoughShares on out-of-range and modulo-256 sizes and thresholds, short and nil seeds, non-BLS keys at every position; cases dealt round-robin over the shards; distinct by input",
+		Rule:      "keygen cases (n,t,seed): private shares, group key, reconstruction from several signer subsets in several orders through the stateless and the stateful API; lambda cases: one Lagrange coefficient isolated by reconstructing from identity shares except one, signer sets straddling the 8-per-limb batches ({1..9}, {8,9}, {247..254}, descending, large t); error cases: sizes/thresholds out of range, count mismatch, not enough shares, duplicates, out-of-range indices, wrong-length shares, several defects in one call (which check wins), empty lists, defects past the first t+1 entries, sizes / thresholds / indices valid only modulo 256 or 2^16, n = 254 with t = 253; keygen cases also vary message (empty, 1 byte, 300 bytes), tag (empty, other) and seed length (32, 300), include n = 254, check that arguments stay unmodified, VerifyShare(i, share_j) iff i = j, duplicate adds, and the participant object (SignShare = the signer's signature, own share first, reconstruction equal to the stateless one, constructor errors incl. index +-256, foreign and non-BLS keys); lambda-coincidence: all shares equal, two equal, a pair P / -P, a set interpolating to the point at infinity, on signer sets {1,2,3}, {4..12}, {254,8,9}; bad-share: wrong signer, wrong message, random G1 point, non-G1 curve point, identity, bad header, x >= p at positions 0, 2 (read) and 3 (not read) of a list of 5 through the stateless API, VerifyAndAdd (refused, not retained, object still reaches the group signature) and TrustedAdd + ThresholdSignature three times (documented error class every time); constructor-errors: BLSThresholdKeyGen / NewBLSThresholdSignatureInspector / EnoughShares on out-of-range and modulo-256 sizes and thresholds, short and nil seeds, non-BLS keys at every position; cases dealt round-robin over the shards; distinct by input; duplicates (first and last added signer, both adds) and one further signer offered to a FULL pool before and after the reconstruction",
 		Shard:     c06Shard,
 	})
 }
